@@ -131,6 +131,24 @@ func (s *skSnap) String() string {
 
 func snapEqual(a, b *skSnap) bool { return a.String() == b.String() }
 
+// reducedString keeps what stays bit-for-bit deterministic when weights are not dyadic (after a
+// mapping change): per-bin weights, zero weight and the exact statistics. Totals and rank-based
+// answers are sums over a store whose iteration order is unspecified (sparse map, buffer/page
+// split), so their last bits may legitimately vary.
+func (s *skSnap) reducedString() string {
+	r := *s
+	r.Count, r.Min, r.Max, r.Qs, r.XQs = 0, 0, 0, nil, nil
+	r.Pos.Total, r.Neg.Total = 0, 0
+	return r.String()
+}
+
+func snapEqualMode(a, b *skSnap, reduced bool) bool {
+	if reduced {
+		return a.reducedString() == b.reducedString()
+	}
+	return snapEqual(a, b)
+}
+
 // freshStoreLike builds a new, empty store of the same real type (and bin limit)
 func freshStoreLike(s store.Store) store.Store {
 	l := store.VerifLayout(s)
